@@ -8,6 +8,7 @@ Decided code-shape premises:
  D4 ownership: start / end of an area are stored only by its constructor; no element store into them anywhere
  D5 collision bookkeeping: is_already_calculated / add_level use the same (coarsened, original) pair; update() clears the records
  D6 every evaluation point is handed to exactly one child (points already assigned are removed before the next child)
+ D7 sibling agreement: the coarsening conditions of the coarsening versions 1 and 2 are the same expression up to constants
 Not decided: disjointness / union as geometry, coefficient sums within an area (arithmetic of the coarsening loops)."""
 import ast
 
@@ -138,6 +139,27 @@ def run(prog, ctx):
     ctx.touch(rf)
     tm = Terms(rf.node, max_depth=0)
     c = cfg_of(rf)
+    # successive single-dimension splits: each already created piece is split, never the parent again
+    for x in R.calls_in(rf.node, method="split_area_single_dim"):
+        loops = [l for l in R.enclosing_loops(x) if isinstance(l, ast.For) and isinstance(l.target, ast.Name)]
+        recv = x.func.value
+        inner = loops[-1] if loops else None
+        ok = inner is not None and isinstance(recv, ast.Name) and recv.id == inner.target.id
+        dims_loop = loops[-2] if len(loops) >= 2 else None
+        okd = dims_loop is not None and x.args and isinstance(x.args[0], ast.Name) and x.args[0].id == dims_loop.target.id
+        # the pieces of one round become the input of the next round
+        chained = False
+        if inner is not None and isinstance(inner.iter, ast.Name) and dims_loop is not None:
+            src_list = inner.iter.id
+            for st in dims_loop.body:
+                if isinstance(st, ast.Assign) and isinstance(st.targets[0], ast.Name) and st.targets[0].id == src_list and isinstance(st.value, ast.Name):
+                    acc = st.value.id
+                    chained = any(isinstance(e, ast.Call) and isinstance(e.func, ast.Attribute) and e.func.attr == "extend" and isinstance(e.func.value, ast.Name)
+                                  and e.func.value.id == acc and e.args and e.args[0] is x for e in ast.walk(inner))
+        ctx.check(ok and okd and chained, "C07.D1", R.key_of(rf, "successive-splits"), rf.loc(x),
+                  "every piece of the previous round is split in the next dimension and the pieces replace their parents",
+                  "`%s`: the successive single-dimension splits do not split each piece of the previous round in the current dimension "
+                  "(receiver `%s`, loop element `%s`): pieces overlap / the parent is split again" % (src(x), src(recv), inner.target.id if inner is not None else None))
     ctors = [x for x in R.calls_in(rf.node) if prog.resolve_class_expr(rf.module.name, x.func, None) is ro]
     ctx.floor("C07.D2", len(ctors), 1, "constructions in the extend branch")
     coarse_local = None
@@ -332,6 +354,9 @@ def run(prog, ctx):
               "a collision is reported iff the coarsened vector is recorded for a different original",
               "is_already_calculated no longer returns `recorded and recorded original != this original`")
 
+    # ------------------------------------------------------------------ D7
+    check_coarsening_siblings(prog, ctx)
+
     # ------------------------------------------------------------------ D6
     gp = prog.func(ES + ".get_points_in_areas_recursive")
     ctx.touch(gp)
@@ -376,6 +401,30 @@ def run(prog, ctx):
     ctx.check(not problems, "C07.D6", R.key_of(gp, "one-leaf-per-point"), gp.loc(),
               "each point is handed to the first child containing it and removed from the candidates of the others",
               "assignment of evaluation points to leaves: " + "; ".join(problems))
+
+
+def check_coarsening_siblings(prog, ctx):
+    cg = prog.func(ES + ".coarsen_grid")
+    tm = Terms(cg.node, max_depth=0)
+
+    def abstract(t):
+        if isinstance(t, tuple):
+            if len(t) == 2 and t[0] == "c":
+                return ("c", "#")
+            return tuple(abstract(x) for x in t)
+        return t
+    groups = {}
+    for st in walk_local(cg.node):
+        if isinstance(st, ast.Assign) and isinstance(st.targets[0], ast.Name) and st.targets[0].id in ("no_forward_problem",):
+            groups.setdefault(st.targets[0].id, []).append(st)
+    for name, sts in groups.items():
+        if len(sts) < 2:
+            continue
+        shapes = {repr(abstract(tm.term(st.value))) for st in sts}
+        ctx.check(len(shapes) == 1, "C07.D7", R.key_of(cg, "siblings:%s" % name), cg.loc(sts[-1]),
+                  "the %d version branches compute `%s` from the same quantities (they differ in constants only)" % (len(sts), name),
+                  "the coarsening versions compute `%s` from different quantities: %s" % (name, [src(st.value)[:70] for st in sts]))
+    ctx.floor("C07.D7", sum(len(v) for v in groups.values()), 2, "sibling coarsening conditions")
 
 
 def _update_sources_nonneg(prog, ctx, ro):
